@@ -756,6 +756,7 @@ func specTrimNul(s string) string { return s[:specTrimNulLen(s, len(s))] }
 //@   let v = d.Options[55]
 //@   ensures[wellformed] v != nil ==> len(result) == len(v) && result != nil
 //@   ensures[default] v == nil ==> result == nil
+//@   ensures[fresh] fresh(result)
 
 //@ contract (*DHCPv4).RelayAgentInfo
 //@   let v = d.Options[82]
